@@ -177,19 +177,27 @@ def judgeC01 (ops impl : List String) : Bool × String :=
 def rowLine (r : Life.Row) : String :=
   s!"thread {r.pid} {r.tid} main={if r.isMain then 1 else 0} name={hexOfStr r.name} pname={hexOfStr r.processName} start={r.start} end={optNat r.end_} pstart={r.pstart} pend={optNat r.pend}"
 
+/-- C17: whole-row equality of samply's thread entries with the eager reading `Life` of the record history.
+Applies to default options and to every history that respects the FORK / EXEC clauses of the record grammar
+(`Life.grammarOk`) — orphan thread EXITs included: there the specification says "no entry", and a failure whose
+output is exactly what the on-demand creation in `handle_exit` produces (`Life.runLegacy`) carries the reason tag
+of the candidate finding. -/
 def judgeC17 (ops impl : List String) : Bool × String :=
   match parse ops with
   | none => (false, "bad-op")
   | some (cfg, rs) =>
     if impl == ["panic"] || impl.any (·.startsWith "err:") then (false, s!"conversion failed: {impl.take 1}") else
     -- the statement is about default options and grammar-respecting histories
-    if cfg.reuse || !Life.grammarOk cfg.ref rs then (true, "not-applicable") else
+    if cfg.reuse then (true, "not-applicable: --reuse-threads") else
+    if !Life.grammarOk cfg.ref rs then (true, "not-applicable: FORK onto a bound child / EXEC on a non-main thread") else
     let want := ((Life.rows (Life.run cfg.ref rs)).map rowLine).mergeSort strLe
     let got := (impl.filter (·.startsWith "thread ")).mergeSort strLe
     if want == got then (true, "ok") else
       let missing := want.filter (fun w => !got.contains w)
       let extra := got.filter (fun g => !want.contains g)
-      (false, s!"thread entries differ from the record history: expected-but-absent {missing.take 2}; unexpected {extra.take 2}")
+      let legacy := ((Life.rows (Life.runLegacy cfg.ref rs)).map rowLine).mergeSort strLe
+      let tag := if !Life.orphanFree cfg.ref rs && legacy == got then "[phantom-process-on-thread-exit] " else ""
+      (false, s!"{tag}thread entries differ from the record history: expected-but-absent {missing.take 2}; unexpected {extra.take 2}")
 
 /-! ### C02 / C14: stacks -/
 
